@@ -386,7 +386,7 @@ theorem C19_periodic_schedule (c : PeriodicCfg) (d0 : Int) (s0 : PeriodicState) 
 /-- Non-vacuity: start 3, start variance 1 (draw −1), frequency 4, variance 2, at most 3 executions: the agent acts at
 steps 2, 5, 7 and then never again. -/
 example :
-    let c : PeriodicCfg := { startStep := 3, startVariance := 1, frequency := 4, variance := 2, maxExecutions := 3, nStartNodes := 2 }
+    let c : PeriodicCfg := { startStep := 3, startVariance := 1, frequency := 4, variance := 2, maxExecutions := 3, nodes := ["n0", "n1"] }
     ∃ s0, periodicInit c (-1) = some s0 ∧
       execTimes 0 (runFrom (periodicStep c) s0 0
         ((List.range 20).map fun j => ({ d := if j = 2 then -1 else if j = 5 then -2 else 0, k := 1 } : PIn))) = [2, 5, 7] := by
@@ -603,7 +603,7 @@ theorem C19_dm_action_node (c : PeriodicCfg) (s0 : PeriodicState) (ins : List PI
 
 /-- Non-vacuity: start 2 (start variance 3 ignored), frequency 3, variance 1. -/
 example :
-    let c : PeriodicCfg := { startStep := 2, startVariance := 3, frequency := 3, variance := 1, maxExecutions := 1, nStartNodes := 1 }
+    let c : PeriodicCfg := { startStep := 2, startVariance := 3, frequency := 3, variance := 1, maxExecutions := 1, nodes := ["n0"] }
     ∃ s0, dmInit c = some s0 ∧
       execTimes 0 (runFrom (dmStep c) s0 0
         ((List.range 12).map fun j => ({ d := if j = 2 then 1 else -1, k := 0 } : PIn))) = [2, 6, 8, 10] := by
